@@ -110,6 +110,74 @@ def check_insert(N, ptr, dt, t, tol, off, ename, iname, inplace, mode, dtype=tor
     return None
 
 
+ADJUSTS = {"none": None, "halve": (lambda v: v * 0.5), "shift": (lambda v: v + 1.0), "clamp": (lambda v: v.clamp(0.25, 0.75))}
+
+
+def pair_cases(points=None):
+    """shipped extrapolation / interpolation pairs on real float64 tensors, the linear ones also with an `adjust` callable:
+    interp(extrap(sample)) at the sample time returns the sample, and the linear endpoints are the documented ones"""
+    fails, n = [], 0
+    pts = points or [(x, p, q, ts, dt) for x in (0.3, -1.25) for p in (0.5, 2.0) for q in (-0.75, 1.5) for dt in (1.0, 0.5) for ts in (0.25 * dt, 0.5 * dt, 0.875 * dt)]
+    for ename, iname in PAIRS:
+        adjs = ADJUSTS if "linear" in ename else {"none": None}
+        for an, adj in adjs.items():
+            for x, p, q, ts, dt in pts:
+                if ename == "extrap_linear_forward" and ts <= 0 or ename == "extrap_linear_backward" and ts >= dt:
+                    continue
+                n += 1
+                X, P_, Q, TS = (torch.tensor([v], dtype=torch.float64) for v in (x, p, q, ts))
+                kw = dict(KW.get(ename, {}))
+                if adj is not None:
+                    kw["adjust"] = adj
+                try:
+                    a, b = getattr(F, ename)(X, TS, P_, Q, dt, **kw)
+                    back = getattr(F, iname)(a, b, TS, dt, **KW.get(iname, {}))
+                except Exception as e:  # noqa: BLE001
+                    fails.append({"what": f"C02/pair/{ename}/{an}/exception", "input": dict(x=x, prev=p, next=q, ts=ts, dt=dt, adjust=an), "expected": "value", "actual": f"{type(e).__name__}: {e}"})
+                    break
+                inp = dict(extrap=ename, interp=iname, x=x, prev=p, next=q, ts=ts, dt=dt, adjust=an)
+                if abs(back.item() - x) > 1e-9:
+                    fails.append({"what": f"C02/pair/{ename}/roundtrip", "input": inp, "expected": x, "actual": back.item()})
+                    break
+                if "linear" in ename:
+                    f = adj or (lambda v: v)
+                    if ename.endswith("forward"):
+                        e0 = f(P_).item()
+                        e1 = e0 + (x - e0) / ts * dt
+                    else:
+                        e1 = f(Q).item()
+                        e0 = e1 - (e1 - x) / (dt - ts) * dt
+                    if abs(a.item() - e0) > 1e-9 or abs(b.item() - e1) > 1e-9:
+                        fails.append({"what": f"C02/pair/{ename}/documented_endpoints", "input": inp, "expected": [e0, e1], "actual": [a.item(), b.item()]})
+                        break
+    uniq = []
+    for f_ in fails:
+        if not any(u["what"] == f_["what"] for u in uniq):
+            uniq.append(f_)
+    return uniq, n
+
+
+def replay_pair(contract, model):
+    from fractions import Fraction
+
+    def g(k, d):
+        try:
+            return float(Fraction(str(model.get(k, d))))
+        except Exception:
+            return d
+
+    dt = g("dt", 1.0) or 1.0
+    pts = [(g("x", 0.3), g("p", 0.5), g("n", -0.75), min(max(g("ts", 0.5 * dt), 0.0), dt), dt)]
+    fs, _ = pair_cases(pts)
+    if not fs:
+        fs, _ = pair_cases()
+    want = contract.split("[")[1].split(",")[0] if "[" in contract else ""
+    hit = [f for f in fs if want in f["what"]] or fs
+    if hit:
+        return {"reproduced": True, "failure": hit[0], "concrete": hit[0]["input"]}
+    return {"reproduced": False, "search": {"points_tried": _}}
+
+
 def times_for(N, dt, tol):
     ts = set()
     for k in range(0, N):
@@ -150,7 +218,11 @@ def sweep(tier="quick", seed=0, unsupported=()):
                 for iname in ("interp_previous", "interp_linear"):
                     fl += 1
                     add(check_select(N, N - 1, dt, k * dt, 1e-6, 1, iname, dtype=torch.float32))
+    pf, pn = pair_cases()
+    for f_ in pf:
+        add(f_)
     return {"standins": [
+        {"function": "shipped extrapolation/interpolation pairs (linear ones also with adjust = halve / shift / clamp): round trip and documented endpoints", "domain": "2 samples x 2 x 2 bracket values x dt in {1, 0.5} x ts/dt in {1/4, 1/2, 7/8}", "cases": pn, "proved": False, "label": "bounded"},
         {"function": "RecordTensor.select/insert scalar AND tensor time vs rational-arithmetic spec (real torch)", "domain": f"dt in {dts}, N in {Ns}, tol/dt in {tols}, all ptr, offsets {{0,1,2N}}, times on/off grid, +-tol, +-2tol, both range limits; 8 extrap/interp pairs; round trip", "cases": cases, "proved": False, "label": "bounded"},
         {"function": "select on float32 storage with non-representable dt (IEEE rounding of time/dt: declared unverified clause)", "domain": "dt in {0.1,1.3,0.7}, N in {3,6}, t = k*dt", "cases": fl, "proved": False, "label": "bounded"}],
         "failures": failures}
@@ -183,7 +255,7 @@ def replay(contract, label, model, note=""):
             if out:
                 break
     if out is None and contract.startswith("pair["):
-        return None
+        return replay_pair(contract, model)
     if out is not None:
         return {"reproduced": True, "failure": out, "concrete": dict(N=N, ptr=ptr, dt=dt, t=t, tol=tol, off=off)}
     tried = 0
